@@ -237,7 +237,8 @@ def run(ctx):
         keep.append((key, ob, created))
         ctx.traces += 1
     # arrays beyond the 80 MiB default chunk (direct oracle only: too large for a Coq literal)
-    bigs = [dict(kind='asarray2d'), dict(kind='copy')] if ctx.quick else [dict(kind=k) for k in ('asarray2d', 'fill1d', 'asarray1d', 'copy')]
+    bigs = [dict(kind='asarray2d'), dict(kind='copy'), dict(kind='wideasarray')] if ctx.quick else \
+        [dict(kind=k) for k in ('asarray2d', 'fill1d', 'asarray1d', 'copy', 'wideasarray', 'widecopy')]
     for case, ob in zip(bigs, ctx.run_impl(bigs, 'big', shards=len(bigs), timeout=1800)):
         key = dict(form='big:' + case['kind'])
         if 'harness_error' in ob:
